@@ -62,6 +62,80 @@ func runC08(c *Ctx) {
 	}
 	c.Min("C08.1-counter-writers", 4)
 
+	// ---- C08.5 divide / collapse keep the range table in step with isDivided
+	{
+		divF := p.Field(ld + ":hashRange.isDivided")
+		rangesF := p.Field(ld + ":hashRanges.ranges")
+		mkBottom := p.Func(ld + ":(*hashRanges).makeBottomRanges")
+		n := 0
+		for _, w := range FieldWrites(ldFuncs, divF) {
+			b, isConst := BoolConst(w.Val)
+			if !isConst {
+				c.Violate("C08.5-divide-collapse-pairing", FuncName(w.Fn)+"|isDivided=<non-constant>", p.Pos(InstrPos(w.Instr)), "isDivided is stored from a non-constant value; pairing with the range table cannot be decided")
+				continue
+			}
+			n++
+			if b {
+				// divided ⇒ children are created: makeBottomRanges follows on every path
+				r := Reach(w.Fn, ReachOpts{From: w.Instr, Cut: CutAtCall(CalleeFn(mkBottom))})
+				bad := ""
+				for _, ret := range Returns(w.Fn) {
+					if r.Reachable(ret) {
+						bad = "after isDivided=true an exit is reachable without makeBottomRanges (a divided range without children in the table)"
+					}
+				}
+				c.Check(bad == "", "C08.5-divide-collapse-pairing", FuncName(w.Fn)+"|isDivided=true→makeBottomRanges", p.Pos(InstrPos(w.Instr)), orDefault(bad, "marking a range divided is always followed by makeBottomRanges"))
+			} else {
+				// collapsed ⇒ the former children were deleted from the table before
+				isDel := func(in ssa.Instruction) bool {
+					cc, ok := in.(*ssa.Call)
+					if !ok {
+						return false
+					}
+					bi, ok := cc.Call.Value.(*ssa.Builtin)
+					return ok && bi.Name() == "delete" && IsLoadOfField(cc.Call.Args[0], rangesF)
+				}
+				// the deletion happens unconditionally in a loop over genTupleRanges of the
+				// collapsing range, and the store lies behind that loop
+				ok, inGenLoop := false, false
+				gen := p.Func(ld + ":genTupleRanges")
+				for _, l := range Loops(w.Fn) {
+					if l.Test == nil {
+						continue
+					}
+					lc, isCall := l.TestAtom.Y.(*ssa.Call)
+					if !isCall || len(lc.Call.Args) != 1 || !valueIsResultOf(lc.Call.Args[0], CalleeFn(gen)) {
+						continue
+					}
+					for b := range l.Blocks {
+						for _, in := range b.Instrs {
+							if !isDel(in) {
+								continue
+							}
+							uncond := true
+							for _, latch := range l.Latches {
+								if !b.Dominates(latch) {
+									uncond = false
+								}
+							}
+							if uncond {
+								inGenLoop = true
+								hdr := l.Header
+								r := Reach(w.Fn, ReachOpts{Cut: func(x ssa.Instruction) bool { return x.Block() == hdr }})
+								if !r.Reachable(w.Instr) {
+									ok = true
+								}
+							}
+						}
+					}
+				}
+				c.Check(ok && inGenLoop, "C08.5-divide-collapse-pairing", FuncName(w.Fn)+"|isDivided=false←delete(children)", p.Pos(InstrPos(w.Instr)), "collapsing a range is preceded on every path by deleting its genTupleRanges children from hashRanges.ranges (no stale sub-range answers)")
+			}
+		}
+		_ = n
+		c.Min("C08.5-divide-collapse-pairing", 3)
+	}
+
 	// ---- C08.2 history-free hash computation
 	{
 		roots := []*ssa.Function{recalc, addEl, remEl,
